@@ -122,7 +122,7 @@ fn orch_multi_helper(mode: u8, cap: usize, helpers: usize, release_order: u8, ou
         let g = m.guard();
         m.insert(1_000_000, 1, &g);
     });
-    if !ini.wait_frozen_or_done(10_000)? {
+    if !ini.wait_frozen_or_done(30_000)? {
         return Err(format!("{what}: the insert that reaches the threshold did not initiate a resize"));
     }
     let mut hs = Vec::new();
@@ -132,7 +132,7 @@ fn orch_multi_helper(mode: u8, cap: usize, helpers: usize, release_order: u8, ou
             let g = m.guard();
             m.insert(2_000_000 + h as u64, 1, &g);
         });
-        if !a.wait_frozen_or_done(10_000)? {
+        if !a.wait_frozen_or_done(30_000)? {
             // did not join (legal: e.g. MAX_RESIZERS reached) — but then coverage is missing
             out.add("orch_helpers_that_did_not_join", 1);
         }
@@ -142,7 +142,7 @@ fn orch_multi_helper(mode: u8, cap: usize, helpers: usize, release_order: u8, ou
     match release_order {
         0 => {
             ini.gate.release();
-            ini.wait_done(10_000)?;
+            ini.wait_done(30_000)?;
             for a in &hs {
                 a.gate.release();
             }
@@ -152,7 +152,7 @@ fn orch_multi_helper(mode: u8, cap: usize, helpers: usize, release_order: u8, ou
                 a.gate.release();
             }
             for a in &hs {
-                a.wait_done(10_000)?;
+                a.wait_done(30_000)?;
             }
             ini.gate.release();
         }
@@ -160,7 +160,7 @@ fn orch_multi_helper(mode: u8, cap: usize, helpers: usize, release_order: u8, ou
             // one helper first, then the initiator, then the rest
             if let Some(a) = hs.first() {
                 a.gate.release();
-                a.wait_done(10_000)?;
+                a.wait_done(30_000)?;
             }
             ini.gate.release();
             for a in hs.iter().skip(1) {
@@ -168,10 +168,10 @@ fn orch_multi_helper(mode: u8, cap: usize, helpers: usize, release_order: u8, ou
             }
         }
     }
-    ini.wait_done(10_000)?;
+    ini.wait_done(30_000)?;
     ini.join()?;
     for a in hs {
-        a.wait_done(10_000)?;
+        a.wait_done(30_000)?;
         a.join()?;
     }
     hook::events_enable(false);
@@ -208,7 +208,7 @@ fn orch_help_transfer(mode: u8, late_writers: usize, out: &mut Outcome) -> Resul
         let g = m.guard();
         m.insert(1_000_000, 1, &g);
     });
-    if !ini.wait_frozen_or_done(10_000)? {
+    if !ini.wait_frozen_or_done(30_000)? {
         return Err(format!("{what}: no resize initiated"));
     }
     // ... a helper joins through add_count. Its first claim yields i == n, which `transfer`
@@ -220,7 +220,7 @@ fn orch_help_transfer(mode: u8, late_writers: usize, out: &mut Outcome) -> Resul
         let g = m.guard();
         m.insert(2_000_000, 1, &g);
     });
-    if !h1.wait_frozen_or_done(10_000)? {
+    if !h1.wait_frozen_or_done(30_000)? {
         return Err(format!("INCONCLUSIVE {what}: the helper finished without forwarding five bins"));
     }
     out.add("help_transfer_first_helper_joined_via_add_count", 1);
@@ -241,7 +241,7 @@ fn orch_help_transfer(mode: u8, late_writers: usize, out: &mut Outcome) -> Resul
             let g = m.guard();
             m.insert(key, 1, &g);
         });
-        if a.wait_frozen_or_done(10_000)? {
+        if a.wait_frozen_or_done(30_000)? {
             out.add("help_transfer_joins_orchestrated", 1);
         }
         late.push((a, key));
@@ -259,13 +259,13 @@ fn orch_help_transfer(mode: u8, late_writers: usize, out: &mut Outcome) -> Resul
     if order == 1 {
         ini.gate.release();
     }
-    ini.wait_done(10_000)?;
+    ini.wait_done(30_000)?;
     ini.join()?;
-    h1.wait_done(10_000)?;
+    h1.wait_done(30_000)?;
     h1.join()?;
     let mut keys = Vec::new();
     for (a, k) in late {
-        a.wait_done(10_000)?;
+        a.wait_done(30_000)?;
         a.join()?;
         keys.push(k);
     }
@@ -300,7 +300,7 @@ fn orch_stale_helper(out: &mut Outcome) -> Result<(), String> {
         let g = m.guard();
         m.insert(11, 11, &g);
     });
-    if !a.wait_frozen_or_done(10_000)? {
+    if !a.wait_frozen_or_done(30_000)? {
         return Err(format!("{what}: no resize was initiated at the threshold"));
     }
     // B inserts into the forwarded bin 15: help_transfer validates table/next_table, then stops
@@ -310,11 +310,11 @@ fn orch_stale_helper(out: &mut Outcome) -> Result<(), String> {
         let g = m.guard();
         m.insert(15, 15, &g);
     });
-    let b_frozen = b.wait_frozen_or_done(10_000)?;
+    let b_frozen = b.wait_frozen_or_done(30_000)?;
     out.add("stale_helper_delayed_before_reading_control_word", b_frozen as u64);
     // A completes generation 16
     a.gate.release();
-    a.wait_done(10_000)?;
+    a.wait_done(30_000)?;
     a.join()?;
     // fill up to one below the next threshold (24) and let C initiate 32 -> 64, stopped at once
     {
@@ -333,7 +333,7 @@ fn orch_stale_helper(out: &mut Outcome) -> Result<(), String> {
         let g = m.guard();
         m.insert(5000, 1, &g);
     });
-    if !c.wait_frozen_or_done(10_000)? {
+    if !c.wait_frozen_or_done(30_000)? {
         return Err(format!("{what}: second resize was not initiated"));
     }
     // B continues: it may (wrongly) join generation 32 with its 16-bin table
@@ -341,16 +341,16 @@ fn orch_stale_helper(out: &mut Outcome) -> Result<(), String> {
         b.gate.arm_site(fvf::EV_HELPER_JOINED, 1);
         b.gate.release();
     }
-    let b_joined = b.wait_frozen_or_done(10_000)?;
+    let b_joined = b.wait_frozen_or_done(30_000)?;
     out.add("second_writer_joined_a_generation_after_the_delay", b_joined as u64);
     // C leaves (if B joined, C is not the last one and simply returns)
     c.gate.release();
-    c.wait_done(10_000)?;
+    c.wait_done(30_000)?;
     c.join()?;
     if b_joined {
         b.gate.release();
     }
-    b.wait_done(10_000)?;
+    b.wait_done(30_000)?;
     b.join()?;
     hook::events_enable(false);
     let ev = hook::events_take();
